@@ -139,10 +139,8 @@ def check_subtree(case, ctx):
             return
         for e in (0, 1):
             d2 = copy.deepcopy(d)
-            fk2 = Forker.__new__(Forker)
+            fk2 = Forker(None, copier=_clone_model)
             fk2.states = [m.clone() for m in fk.states]
-            fk2.copier = _clone_model
-            fk2.forked_steps = 0
             seq.append(e)
             verdict, obs = advance(det_name, d2, fk2, e, len(seq) - 1, seq, params)
             if verdict != "overflow":
